@@ -294,7 +294,10 @@ Qed.
 
 Theorem spec15_model_partial : forall i, wf_input i = true -> unconfused i = true ->
   C15_spec.spec i (C15_spec.model i) = true.
-Proof. intros [cl pol ops] W U. exact (spec15_run_model cl W (located ops) (init pol) U). Qed.
+Proof.
+  intros [cl pol ops] W U. cbn [C15_spec.model run_hist C15_spec.spec]. rewrite configure_designated.
+  exact (spec15_run_model cl W (located (designated (p_kopts pol)) ops) (init pol) U).
+Qed.
 
 Theorem spec15_model_refuted : exists i, wf_input i = true /\ C15_spec.spec i (C15_spec.model i) = false.
 Proof. exists refuting_history. split; vm_compute; reflexivity. Qed.
